@@ -112,15 +112,19 @@ CHECKS = {
     text='Unbounded for the event-driven SIR simulators: _process_trans_SIR_ appends (time, source, target) exactly when the target turns S->I at that time; the global event-loop '
          'invariant (queue rule lemma) keeps one entry per infection, source-less entries = the initial nodes at tmin, sourced entries along an edge from an already infected node '
          'not after its recovery, non-decreasing times, every node target of at most one entry (forest). Gillespie_SIR: candidate-set invariants and, with return_full_data=True, the same per-entry '
-         'validity / completeness / forest facts as a loop invariant over the recorded infection and recovery times; exactly that list is handed to the object. Constructor binding of every '
-         'Simulation_Investigation(...) call. SIS, simple contagion and discrete simulators only by the bounded native stand-in - hence level other.',
+         'validity / completeness / forest facts as a loop invariant over the recorded infection and recovery times; exactly that list is handed to the object. '
+         'Gillespie_SIS with return_full_data=True: per node the recorded infection / recovery lists alternate inside [tmin, now] and agree with the status; every sourced entry goes along an edge and names '
+         '(ghost index maps) the infection of its target at that time and an infection of its source covering that time; different entries name different infections; #sourced entries = #infection events; '
+         'exactly these objects are handed on. Constructor binding of every '
+         'Simulation_Investigation(...) call. fast_SIS / fast_nonMarkov_SIS, simple contagion and discrete simulators only by the bounded native stand-in - hence level other.',
     design_ref='DESIGN.md section 5 "C09"',
     note='As C01/C11; transmissions()/transmission_tree() accessors checked natively.',
     technique='contract-based deductive verification (handler postcondition + global invariant via queue-rule lemma, z3) + constructor-binding analysis + bounded native stand-in'),
  'C10': dict(
     category='other',
     text='_transform_to_node_history_ (SIR branch) under unbounded contract: every node gets a history starting at tmin, infection/recovery entries in time order; constructor binding; Gillespie_SIR (return_full_data=True): the recorded times are linked to the '
-         'statuses and rows of the run by the loop invariant and the histories handed over are built from exactly these. '
+         'statuses and rows of the run by the loop invariant and the histories handed over are built from exactly these; Gillespie_SIS (return_full_data=True): the per-node lists of infection / recovery times alternate, '
+         'lie in [tmin, now] and agree with the statuses, and exactly these lists go to the history builder (whose SIS branch is not under contract). '
          'summary/t/S/I/R/node_status/get_statuses against brute-force head counts on all short histories (bounded, exhaustive over a small alphabet); both return modes of '
          'every simulator agree under the same seeds (bounded).',
     design_ref='DESIGN.md section 5 "C10"',
@@ -141,7 +145,8 @@ CHECKS = {
          'the invariant "new_infecteds = nodes susceptible at step start reached by a successful contact from an infectious node" (BFS layer recurrence; '
          'the rule is asked with (u, v, *args) only about susceptible v), one-step infectiousness unless the recovery rule keeps the node, S+I+R=N, '
          'unit time steps; _simple_test_transmission_ = one U01 draw compared with p; percolate_network = same nodes, symmetric sub-graph, each edge '
-         'decided by its own draw; wrappers by delegation binding. basic_discrete_SIS only by a bounded scripted-draw check (supplementary).',
+         'decided by its own draw; wrappers by delegation binding. basic_discrete_SIS (plain arrays): generation-loop invariants over the named contact draws, a two-state postcondition of one pass of the main loop '
+         '(new infectious set = non-infectious nodes with a successful contact from an infectious neighbour, one row, time + 1), rows and stop condition; its full-data path only by the bounded stand-in.',
     design_ref='DESIGN.md section 5 "C12"',
     note='Trusted as C01; M (cited): layer recurrence => BFS distance, independent Bernoulli contacts => Reed-Frost chain; the transmission rule is a function of the ordered pair within a step.',
     technique='contract-based deductive verification: nested loop invariants over the generation step, call-back argument obligations, z3; delegation-binding analysis'),
